@@ -31,7 +31,8 @@ def _norm(ix, rel):
 
 
 def _statuses(R):
-    return {(o.oid, o.site, o.statement): o.status for o in R.obls}
+    n = getattr(R, 'n_quick', len(R.obls))
+    return {(o.oid, o.site, o.statement): o.status for o in R.obls[:n]}
 
 
 def _one(args):
